@@ -1,5 +1,6 @@
 """Python-side value wrappers, class universe and schema for the symbolic executor."""
 import inspect
+import re
 import z3
 from .vals import *  # noqa
 
@@ -21,10 +22,11 @@ class V(object):
 
 
 class PyTuple(object):
-    __slots__ = ('items',)
+    __slots__ = ('items', 'fields')
 
-    def __init__(self, items):
+    def __init__(self, items, fields=None):
         self.items = list(items)
+        self.fields = fields        # field names of a namedtuple instance, else None
 
     def __repr__(self):
         return 'PyTuple(%r)' % (self.items,)
@@ -163,6 +165,7 @@ class TypeSpec(object):
         self.elem = elem
         self.keyed = keyed      # dict kinds: {constant key: TypeSpec} overriding elem
         self.exact = exact      # instance of exactly classes[0], not of a subclass
+        self.fields = None      # tuple kinds: field names of a namedtuple
         self.region = region    # ownership region: containers of different regions are never the same object (assumed)
 
     def elem_for_key(self, key):
@@ -171,7 +174,9 @@ class TypeSpec(object):
         return self.elem
 
     def with_opt(self, opt):
-        return TypeSpec(self.kind, self.classes, opt, self.elem, self.keyed, self.exact, self.region)
+        t = TypeSpec(self.kind, self.classes, opt, self.elem, self.keyed, self.exact, self.region)
+        t.fields = self.fields
+        return t
 
     def __repr__(self):
         return 'TypeSpec(%s,%s,opt=%s,elem=%r)' % (self.kind, [c.__name__ for c in self.classes], self.opt, self.elem)
@@ -267,12 +272,26 @@ def parse_spec(s):
                 else:
                     cur += ch
             parts.append(cur)
-            elem = [parse_spec(x.strip()) for x in parts]
+            names = []
+            plain = []
+            for x in parts:
+                x = x.strip()
+                m = re.match(r'^([A-Za-z_][A-Za-z_0-9]*):(.*)$', x)
+                if m:
+                    names.append(m.group(1))
+                    plain.append(m.group(2).strip())
+                else:
+                    names.append(None)
+                    plain.append(x)
+            elem = [parse_spec(x) for x in plain]
+            tuple_fields = tuple(names) if all(n is not None for n in names) else None
         else:
             elem = parse_spec(inner)
         s = head
     if s in ('str', 'int', 'bool', 'any', 'dict', 'set', 'list', 'tuple', 'none', 'opaque'):
         ts = TypeSpec(s, (), opt, elem)
+        if s == 'tuple' and locals().get('tuple_fields'):
+            ts.fields = tuple_fields      # namedtuple: items can be read by field name
     else:
         names = s.split('|')
         prim = [n for n in names if n in ('str', 'int', 'bool', 'none')]
